@@ -187,7 +187,9 @@ def run(ctx, name, kind, **kw):
     else:
         from vf import toy
         t = toy.toy(*kw["key"])
-        curve, dom = sigs.toy_lib_curve(t)
+        # every second toy curve is declared the old way, with a legacy affine Point as base point (still supported)
+        curve, dom = sigs.toy_lib_curve_legacy(t) if sum(kw["key"]) % 2 else sigs.toy_lib_curve(t)
+        ctx.count("toy_curves_with_legacy_point_generator", sum(kw["key"]) % 2)
         n = dom.n
         for d in gen.rotated(range(1, n), rng):      # all of them, starting anywhere: which scalar a fresh curve object sees first is part of the history
             for k in range(1, n):
